@@ -1128,3 +1128,72 @@ def r5(cx):
                 cx.violation(fn, 'literal-path:(%s,%s)' % (ab_, ae_), 'for a literal pattern with anchor_begin=%s, anchor_end=%s the text '
                              'must be tested with %s (found %s)' % (ab_, ae_, op, ops), loc='%s:%s' % (h['file'], arm.get('line', h['line'])))
     cx.sample({'literal_table': {k.split('::')[-1]: {str(c): v for c, v in t.items()} for k, t in LITERAL_TABLE.items()}})
+
+
+@RS.rule('C04.R5b', 'K-GUARD', 'case item: "no pattern matches" is concluded only after every alternative was tried (a pattern that fails to compile just matches nothing)')
+def r5b(cx):
+    import mirq as Q
+    F = cx.F
+    b = F.main_body('yash_semantics::command::compound_command::case::matches')
+    cx.fn(b.fn)
+    du = Q.DefUse(b)
+    oks = [(blk, j, s) for blk, j, s in Q.find_aggregates(b, 'core::result::Result', 'Ok') if s['lhs']['l'] == 0]
+    cx.require(oks, 'no Ok(..) result in case::matches')
+    n_false = 0
+    for blk, j, s in oks:
+        val = s['rv']['ops'][0]
+        c = str(val.get('c')) if 'c' in val else None
+        if c is None:
+            org = du.origin(val)
+            c = str(org['o'].get('c')) if org['k'] == 'const' else None
+        cx.site('%s: return Ok(%s) at %s' % (b.fn, c, b.loc(s)))
+        if c != 'false':
+            continue
+        n_false += 1
+        exhausted = False
+        for org, lab, e in Q.dominating_conditions(F, b, du, blk):
+            if org['k'] == 'discr' and lab == ('variant', 'None'):
+                src = Q.value_source(b, du, {'cp': {'l': org['pl']['l']}})
+                if src is not None and Q.callee_is(src, [Q.re.compile(r'Iterator>::next$'), '*::Iterator::next']):
+                    exhausted = True
+        if not exhausted:
+            cx.violation(b.root, 'no-match-before-all-alternatives', 'case::matches answers "no match" before the list of `|` alternatives is '
+                         'exhausted: an alternative that cannot be compiled (e.g. [[:nosuchclass:]]) must only match nothing, the following '
+                         'alternatives of the same item still have to be tried', loc=b.loc(s))
+    cx.require(n_false >= 1, 'case::matches never returns Ok(false)')
+
+
+@RS.rule('C04.R3b', 'K-GUARD', 'every unquoted `[` is tried as a bracket expression on its own: nothing but the character itself decides whether the attempt is made')
+def r3b(cx):
+    import mirq as Q
+    F = cx.F
+    sites = F.callers_of(lambda names, t: any(Q.re.search(r'yash_fnmatch::ast::Bracket>::parse$', n) for n in names))
+    sites = [(b, blk, t) for b, blk, t in sites if 'yash_fnmatch::ast::Atom>::parse' in b.fn]
+    cx.require(len(sites) == 1, 'the Bracket::parse attempt in Atom::parse was not found (%d)' % len(sites))
+    b, blk, t = sites[0]
+    cx.fn(b.fn)
+    du = Q.DefUse(b)
+    for org, lab, e in Q.dominating_conditions(F, b, du, blk):
+        ok = False
+        desc = org['k']
+        if org['k'] == 'discr' and 'PatternChar' in org['ty']:
+            ok, desc = True, 'PatternChar variant'
+        elif org['k'] == 'place':
+            fields = [x for x in (org['pl'].get('p') or []) if isinstance(x, dict)]
+            if any(x.get('adt', '').endswith('PatternChar') for x in fields):
+                ok, desc = True, 'the pattern character'
+            else:
+                desc = 'the value of %s' % Q.operand_name(b, du, {'cp': org['pl']})
+        elif org['k'] == 'call':
+            desc = 'the result of ' + pp.callee(org['t'])
+        elif org['k'] == 'arg':
+            desc = 'a parameter'
+        cx.site('%s: Bracket::parse attempted under %s = %s' % (b.fn, desc, lab))
+        if not ok:
+            cx.violation(b.root, 'bracket-attempt-depends-on-state', 'whether an unquoted `[` is tried as a bracket expression additionally depends '
+                         'on %s: each `[` must be examined on its own (an earlier unclosed `[` is literal, but a later one may still open a '
+                         'complete bracket expression, e.g. `[[.a.]`)' % desc, loc=b.loc(t))
+    # the attempt uses the iterator positioned right after this `[` (a clone of the current position)
+    src = Q.value_source(b, du, t['a'][0]) if t['a'] else None
+    if src is None or not Q.callee_is(src, [Q.re.compile(r'Clone>::clone$'), '*::Clone::clone']):
+        cx.violation(b.root, 'bracket-attempt-position', 'the bracket attempt does not start from a clone of the current position', loc=b.loc(t))
